@@ -6,11 +6,15 @@
     the wire, RFC 7047 5.1); [set_roundtrip] covers singleton sets decoded
     as sets.  Operations (all kinds, every optional member present or absent,
     the select rule for "where") are modelled field by field with
-    encoding/json's omitempty rules: [C12_operation_roundtrip].  Results,
-    table updates, monitor requests/replies and whole schemas are further
-    struct-tag records of the same values; they are covered by the driver's
-    round-trip oracle on the implementation only (see DESIGN.md). *)
-From LOV Require Import Wire.Decode Wire.Encode Wire.RoundTrip Wire.SchemaCodec Wire.SchemaCodecProofs Wire.SchemaCodecRT Wire.Operation Wire.OperationProofs.
+    encoding/json's omitempty rules: [C12_operation_roundtrip].  So are
+    operation results, table updates in both formats (rows that are nil,
+    present but empty, or filled; nil row updates), monitor requests (columns
+    absent / empty / listed, select with any subset of its members) and
+    monitor_cond_since replies (Wire/Messages.v).  Whole schemas (the map of
+    tables around the modelled columns), errors and the JSON-RPC envelopes are
+    covered by the driver's round-trip oracle on the implementation only
+    (see DESIGN.md). *)
+From LOV Require Import Wire.Decode Wire.Encode Wire.RoundTrip Wire.SchemaCodec Wire.SchemaCodecProofs Wire.SchemaCodecRT Wire.Operation Wire.OperationProofs Wire.Messages Wire.MessagesProofs.
 
 Theorem C12_value_roundtrip : forall vu f v,
   wf_value v = true -> notation (5 + f) (enc_value vu v) = Ok v.
@@ -82,3 +86,55 @@ Theorem C12_select_keeps_where : forall vu w,
   o_op w = s_select -> assoc (enc_op_fields vu w) s_where = Some (GArr (map (enc_triple vu) (o_where w))).
 Proof. exact select_keeps_where. Qed.
 Print Assumptions C12_select_keeps_where.
+
+(** ---- messages (Wire/Messages.v) ---- *)
+Theorem C12_table_updates_roundtrip : forall vu f t,
+  wf_tables wf_ru t = true -> dec_tables (dec_ru (5 + f)) (enc_tables (enc_ru vu) t) = Ok t.
+Proof. exact table_updates_roundtrip. Qed.
+Print Assumptions C12_table_updates_roundtrip.
+
+Theorem C12_table_updates2_roundtrip : forall vu f t,
+  wf_tables wf_ru2 t = true -> dec_tables (dec_ru2 (5 + f)) (enc_tables (enc_ru2 vu) t) = Ok t.
+Proof. exact table_updates2_roundtrip. Qed.
+Print Assumptions C12_table_updates2_roundtrip.
+
+Theorem C12_result_roundtrip : forall vu f r, wf_result r = true -> dec_result (5 + f) (enc_result vu r) = Ok r.
+Proof. exact result_roundtrip. Qed.
+Print Assumptions C12_result_roundtrip.
+
+Theorem C12_monitor_request_roundtrip : forall vu f m, wf_monreq m = true -> dec_monreq (5 + f) (enc_monreq vu m) = Ok m.
+Proof. exact monreq_roundtrip. Qed.
+Print Assumptions C12_monitor_request_roundtrip.
+
+Theorem C12_monitor_select_roundtrip : forall s, dec_select (enc_select s) = Ok s.
+Proof. exact select_roundtrip. Qed.
+Print Assumptions C12_monitor_select_roundtrip.
+
+Theorem C12_monitor_cond_since_reply_roundtrip : forall vu f s, wf_since s = true -> dec_since (5 + f) (enc_since vu s) = Ok s.
+Proof. exact since_roundtrip. Qed.
+Print Assumptions C12_monitor_cond_since_reply_roundtrip.
+
+(** the hand-written rules on top of the struct codecs *)
+Theorem C12_monitor_request_keeps_empty_columns : forall vu m,
+  mr_columns m = Some [] -> assoc (enc_monreq_fields vu m) s_columns = Some (GArr []).
+Proof. exact monreq_keeps_empty_columns. Qed.
+Print Assumptions C12_monitor_request_keeps_empty_columns.
+
+Theorem C12_null_delete_is_a_deletion : forall fuel o,
+  obj_get o s_del = Some GNull -> forall r, dec_ru2 fuel (GObj o) = Ok r -> r2_delete r = Some [].
+Proof. exact ru2_null_delete_is_delete. Qed.
+Print Assumptions C12_null_delete_is_a_deletion.
+
+Theorem C12_pinned_row_update2_refuted :
+  exists v r, dec_ru2_pinned 8 v = Ok r /\ r2_delete r = None /\
+              exists r', dec_ru2 8 v = Ok r' /\ r2_delete r' = Some [].
+Proof. exact ru2_pinned_refuted. Qed.
+Print Assumptions C12_pinned_row_update2_refuted.
+
+Theorem C12_message_hypotheses_satisfiable :
+  wf_tables wf_ru [(70%N, [(71%N, Some (mkWRu (Some [(72%N, GSet [GUuid 73%N; GUuid 74%N])]) (Some [(72%N, GSet [])]))); (75%N, None)])] = true
+  /\ wf_tables wf_ru2 [(70%N, [(71%N, Some (mkWRu2 None None (Some [(72%N, GMap [(GStr 76%N, GNum 3 1)])]) None)); (75%N, Some (mkWRu2 None None None (Some [])))])] = true
+  /\ wf_result (mkWRes 2 s_empty s_empty s_empty [[(72%N, GNum 1 2)]]) = true
+  /\ wf_monreq (mkWMon (Some []) [(72%N, 6%N, GSet [])] (Some (mkWSel (Some false) None None (Some true)))) = true.
+Proof. exact wf_messages_example. Qed.
+Print Assumptions C12_message_hypotheses_satisfiable.
